@@ -307,6 +307,13 @@ func (w *SimWriter) Write(p []byte) (int, error) {
 			}
 			return room, nil
 		}
+	case "failfull":
+		// legal: reports an error although it accepted everything it was given
+		if len(w.Buf)+len(p) > w.Plan.After {
+			w.Buf = append(w.Buf, p...)
+			w.Fired++
+			return len(p), ErrInjected
+		}
 	case "chunk":
 		// accepts everything, but the caller sees it was a "slow" writer: we still must
 		// honour the io.Writer contract (n < len(p) requires an error), so a chunk writer
@@ -322,3 +329,9 @@ func (w *SimWriter) Write(p []byte) (int, error) {
 	w.Buf = append(w.Buf, p...)
 	return len(p), nil
 }
+
+// SimStringWriter is a SimWriter that also implements io.StringWriter (bufio
+// hands large strings to such a destination directly, bypassing its buffer).
+type SimStringWriter struct{ *SimWriter }
+
+func (w SimStringWriter) WriteString(s string) (int, error) { return w.SimWriter.Write([]byte(s)) }
